@@ -18,7 +18,7 @@ CONSTS = """CONSTANTS
   Match <- MatchDef
   Hot = {0, 1}
   Cold = {0, 1}
-  HotKeys = {"cam", "R1"}
+  HotKeys = {%s}
   InitKeys = {"cam", "R1"}
   MaxReloads = %d
   MaxInc = %d
@@ -40,10 +40,12 @@ def hist_from_error_trace(out):
 def run(ctx):
     d = ctx.specdir()
     reloads = 2
+    # quick: the hot value varies for one key only (135 configuration maps instead of 225)
+    hotkeys = ctx.pick('"R1"', '"cam", "R1"')
 
     def cfg(name, body, r=reloads, inc=6, depth=12, spec="Spec"):
         with open(os.path.join(d, name), "w") as fh:
-            fh.write("SPECIFICATION %s\n" % spec + CONSTS % (r, inc, depth) + body + "\nCHECK_DEADLOCK FALSE\n")
+            fh.write("SPECIFICATION %s\n" % spec + CONSTS % (hotkeys, r, inc, depth) + body + "\nCHECK_DEADLOCK FALSE\n")
         return name
 
     # 1. MC: the parts of the statement the design guarantees ...
